@@ -246,8 +246,45 @@ def r08e(run):
                   node=p.ast)
 
 
+def r08f(run):
+    """the type declared on **kwargs decides the conversion of extra keyword arguments, whatever the user options say"""
+    f = run.repo.func("utype.parser.func", "FunctionParser.__init__")
+    fa = analysis(f)
+    gens = [(n, c) for n, c in fa.all_calls() if call_attr(c) == "generate_from"]
+    run.floor("R08f", "option merges in FunctionParser.__init__", len(gens), 1)
+    P = prov(fa)
+    for n, c in gens:
+        # flatten the merged sequence: positional args, or the list a *starred name was built from
+        seq = []
+        for a in c.args:
+            if isinstance(a, ast.Starred) and isinstance(a.value, ast.Name):
+                lst = a.value.id
+                for d in fa.cfg.nodes:
+                    if d.kind == "stmt" and isinstance(d.ast, ast.Assign) and unparse(d.ast.targets[0]) == lst \
+                            and isinstance(d.ast.value, (ast.List, ast.Tuple)):
+                        seq += list(d.ast.value.elts)
+                    for cc in fa.calls_at(d) if d.kind == "stmt" else []:
+                        if call_attr(cc) == "append" and unparse(cc.func.value) == lst and cc.args:
+                            seq.append(cc.args[0])
+            else:
+                seq.append(a)
+        def declared(e):
+            return isinstance(e, ast.Call) and any(k.arg == "addition" for k in e.keywords)
+        def user(e):
+            return isinstance(e, ast.Name) and e.id == "options"
+        idx_decl = [i for i, e in enumerate(seq) if declared(e)]
+        idx_user = [i for i, e in enumerate(seq) if user(e)]
+        ok = bool(idx_decl) and bool(idx_user) and min(idx_decl) > max(idx_user)
+        run.check("R08f", f, "the options derived from the **kwargs annotation are merged after the user's options", ok,
+                  construct="**kwargs annotation merged before the user options",
+                  message=f"FunctionParser.__init__: `{unparse(c)[:80]}` merges {[unparse(e)[:40] for e in seq]}; later "
+                          f"options win key by key, so a user-supplied `addition` overrides the type declared on **kwargs",
+                  necessity="with Options(addition=True) and **extra: int the body receives {'k': '4'} unconverted and "
+                            "k='zz' is accepted", node=c)
+
+
 def check(run):
-    run.rules_run += ["R08a", "R08b(R04e)", "R08c", "R08d", "R08e"]
+    run.rules_run += ["R08a", "R08b(R04e)", "R08c", "R08d", "R08e", "R08f", "R10e"]
     run.explain("C08 (wrapper discipline; the binding arithmetic itself is not decidable statically): (R08a) every wrapper "
                 "kind creates a per-call context, resolves forward references before get_params, calls get_params with "
                 "identical arguments, parses the result channel exactly under parse_result, and wrap() dispatches each "
@@ -260,3 +297,6 @@ def check(run):
     r08c(run)
     r08d(run)
     r08e(run)
+    r08f(run)
+    from . import c10
+    c10.r10e(run, [g for g in run.repo.module('utype.parser.func').functions.values()], rule="R10e", floor=6)
